@@ -6,10 +6,10 @@ def run(ctx):
     ctx.forbidden_scan()
     if not ctx.build_driver():
         return
-    if ctx.lake_each(["AvoVerif.Props.C02"]):
+    if ctx.lake_each(["AvoVerif.Props.C02", "AvoVerif.Props.C02Term"]):
         ctx.audit("C02")
     if ctx.tier == "thorough":
-        ctx.leanchecker(["AvoVerif.Props.C02"])
+        ctx.leanchecker(["AvoVerif.Props.C02", "AvoVerif.Props.C02Term"])
     nt = lambda req, resp: req.startswith(("live ", "accept-live ")) and " 2 " in req or "usedef 1 " in req
     ctx.run_corpus("c02", nontrivial=nt)
     if ctx.replay:
